@@ -22,6 +22,9 @@ var URLKinds = []string{"http", "https", "ldap", "ftp", "file", "relative", "emp
 
 // Shape is the revocation-relevant shape of one certificate.
 type Shape struct {
+	// CDPGrouped: all distribution-point URIs sit in ONE DistributionPoint of the
+	// certificate's extension (the parsed list is the same flat list)
+	CDPGrouped bool
 	OCSP       []string // URL kind per responder slot
 	CRL        []string // URL kind per distribution-point slot
 	Freshest   bool     // certificate carries a freshest-CRL extension
@@ -31,7 +34,7 @@ type Shape struct {
 }
 
 func (s Shape) key() string {
-	return fmt.Sprintf("%s|%s|%v|%v|%v|%v", strings.Join(s.OCSP, ","), strings.Join(s.CRL, ","), s.Freshest, s.LongSerial, s.NoCRLSign, s.NoEKU)
+	return fmt.Sprintf("%s|%s|%v|%v|%v|%v|%v", strings.Join(s.OCSP, ","), strings.Join(s.CRL, ","), s.Freshest, s.LongSerial, s.NoCRLSign, s.NoEKU, s.CDPGrouped)
 }
 
 // HTTPShape returns a shape with nO http responders and nC http points.
@@ -99,6 +102,12 @@ func (f *Family) URL(pos int, typ string, slot int, kind string) string {
 		return "http://" + host + path
 	case "HTTP":
 		return "HTTP://" + host + path
+	case "httpoq":
+		// a responder URL with a path and a query component
+		if typ == "o" {
+			return "http://" + host + "/status?ca=issuing-2&x=1"
+		}
+		return "http://" + host + path
 	case "httph":
 		// every distribution point of every certificate of the family on ONE host,
 		// told apart by path
@@ -202,6 +211,7 @@ func (f *Family) spec(pos int, s Shape) *pki.Cert {
 	for j, k := range s.CRL {
 		c.CDP = append(c.CDP, f.URL(pos, "d", j, k))
 	}
+	c.CDPGrouped = s.CDPGrouped
 	if s.Freshest {
 		c.Freshest = []string{fmt.Sprintf("http://fresh.c%d.%s.test/delta.crl", pos, strings.ToLower(f.Tag))}
 	}
